@@ -5,6 +5,15 @@ import "fmt"
 func registry() []PropSpec {
 	return []PropSpec{
 		{
+			ID: "C15",
+			Quick: []HarnessSpec{
+				{Pkg: pkgTracer, Func: "H15a_q", Unwind: 8, Note: "tracingHTTP2Conn.Read/Write/Close against a fake conn returning n in 0..4 and nil / error / timeout error, client and server side"},
+				{Pkg: pkgTracer, Func: "H15b_q", Unwind: 30, CaseGen: c15Cases(3), CaseNote: "case split: declared payload length of each of 2 frames (0..3) and every partition of the stream into 3 chunks; flags, stream ids and payload bytes symbolic", Note: "http2FrameTracer.trace (response direction): 2 frames of an unknown type, state checked after every chunk"},
+			},
+			Stubs: []string{"emitFrame (http2.Framer + HPACK) replaced by a frame counter in the engine; natively the real Framer parses the frames (unknown type, ignored by the connection tracer)", "http2.ReadFrameHeader = 9-byte big-endian model", "bytes.Buffer modelled on its fields"},
+			Out:   []string{"HPACK, http2.Framer, attribution of frames to streams (handleFrame), GOAWAY / retry collector timers, request direction with the client preface"},
+		},
+		{
 			ID: "C05",
 			Quick: []HarnessSpec{
 				{Pkg: pkgCC, Func: "H05a_q", Unwind: 12, Note: "filterGRPCImplTestCases on 2 permutations with symbolic protocol, HTTP version, codec, compression (4 values), TLS marker, raw request, raw response, for every (clientIsGRPC, serverIsGRPC)"},
@@ -283,6 +292,38 @@ func c14Cases(M, L, R int) func() []map[string]int64 {
 			}
 		}
 		recLens(0)
+		return out
+	}
+}
+
+
+// c15Cases: payload lengths of the two frames and every partition of the stream into R chunks.
+func c15Cases(R int) func() []map[string]int64 {
+	return func() []map[string]int64 {
+		var out []map[string]int64
+		for l0 := 0; l0 <= 3; l0++ {
+			for l1 := 0; l1 <= 3; l1++ {
+				total := 18 + l0 + l1
+				parts := make([]int, R)
+				var rec func(i, left int)
+				rec = func(i, left int) {
+					if i == R-1 {
+						parts[i] = left
+						c := map[string]int64{"len#0": int64(l0), "len#1": int64(l1)}
+						for q, p := range parts {
+							c[fmt.Sprintf("chunk#%d", q)] = int64(p)
+						}
+						out = append(out, c)
+						return
+					}
+					for v := 0; v <= left; v++ {
+						parts[i] = v
+						rec(i+1, left-v)
+					}
+				}
+				rec(0, total)
+			}
+		}
 		return out
 	}
 }
